@@ -52,7 +52,7 @@ def indent(lines, n=1):
 
 
 def simple_for_import(T):
-    return T.kind in ("int", "float", "bool", "char", "str") or (T.kind == "arr" and simple_for_import(T.elem))
+    return (T.kind in ("int", "float", "bool", "char", "str") and T.name != "DS") or (T.kind == "arr" and simple_for_import(T.elem))
 
 
 def derive_value(rng, T, v):
@@ -84,6 +84,8 @@ def make_program(seed, idx, nblocks=BLOCKS_PER_PROG, padfree=False):
     for k in range(nblocks):
         placement = rng.weighted(PLACEMENTS)
         T = env.gen_type()
+        while T.kind != "str" and G.has_kind(T, "str"):      # a pointer inside an aggregate result is rejected by the checker: NEGATIVES only
+            T = env.gen_type()
         if padfree:
             while not G.padding_free(T) or T.kind == "type":
                 T = env.gen_type()
@@ -249,6 +251,25 @@ NEGATIVES = [
     ("ptr_nested", "main :: () -> i32 { p :: comptime { comptime { x : i64 = 5; ^x } }; 0 }"),
     ("ptr_inline_arg", "g :: (p: ^i64) -> i64 { p^ }\nmain :: () -> i32 { vr_i64(1, g(comptime { x : i64 = 5; ^x })); 0 }"),
 ]
+NEG_TYPES = ("SP :: struct { a: i32, s: str };\nEP :: enum { A, B: str };\nSS :: struct { a: i32, s: []i32 };\nSQ :: struct { p: ^i64 };\n"
+             "Er :: enum { X, Y: i32 };\nSN :: struct { a: i32, inner: SP };\n")
+# results that hold a pointer INSIDE an aggregate / optional / error union / array / enum: rejected like top-level pointers
+NEGATIVES += [(n, NEG_TYPES + t) for n, t in [
+    ("struct_with_str", 'main :: () -> i32 { x :: comptime { SP.{ a = 1, s = "t" } }; 0 }'),
+    ("struct_with_str_global", 'GP :: comptime { SP.{ a = 1, s = "t" } };\nmain :: () -> i32 { 0 }'),
+    ("nested_struct_with_str", 'main :: () -> i32 { x := comptime { SN.{ a = 1, inner = SP.{ a = 2, s = "t" } } }; 0 }'),
+    ("optional_str", 'main :: () -> i32 { x :: comptime { o : ?str = "t"; o }; 0 }'),
+    ("error_union_str", 'main :: () -> i32 { x :: comptime { r : Er!str = "t"; r }; 0 }'),
+    ("array_of_str", 'main :: () -> i32 { x :: comptime { str.["a", "b"] }; 0 }'),
+    ("array_of_array_of_str", 'main :: () -> i32 { x :: comptime { [2]str.[str.["a", "b"], str.["c", "d"]] }; 0 }'),
+    ("enum_with_str_payload", 'main :: () -> i32 { x :: comptime { e : EP = EP.B.("t"); e }; 0 }'),
+    ("slice", 'main :: () -> i32 { x :: comptime { a := i32.[1, 2]; s : []i32 = a; s }; 0 }'),
+    ("struct_with_slice", 'main :: () -> i32 { x :: comptime { a := i32.[1, 2]; SS.{ a = 1, s = a } }; 0 }'),
+    ("struct_with_pointer", 'main :: () -> i32 { x :: comptime { v : i64 = 5; SQ.{ p = ^v } }; 0 }'),
+    ("optional_pointer", 'main :: () -> i32 { x :: comptime { v : i64 = 5; o : ?^i64 = ^v; o }; 0 }'),
+    ("any", 'main :: () -> i32 { x :: comptime { v : i64 = 5; a : any = v; a }; 0 }'),
+    ("struct_with_str_in_fn", 'g :: () -> SP { comptime { SP.{ a = 1, s = "t" } } }\nmain :: () -> i32 { g().a - 1 }'),
+]]
 POINTER_DIAG = "comptime blocks cannot return pointers"
 PROBES = [
     # known crash: a comptime block inside a generic function (`todo!()` in find_comptimes); kept out of the bulk generator
@@ -272,6 +293,23 @@ def compile_retry(d, files):
         if c.sig in EXTERNAL_SIGNALS and not c.timed_out and attempt < 3:
             continue
         return c
+
+
+MARKER = re.compile(r"^(CT|RT)-\d+\.$")
+
+
+def parse_events(out):
+    """R.parse_log, but a text line that follows an S event and is not a side-effect marker continues that string (strings with \\n)"""
+    ev = []
+    for line in out.split("\n"):
+        parts = line.split(" ", 2)
+        if len(parts) >= 2 and parts[0] in ("E", "I", "U", "H", "F", "D", "B", "S", "X", "W") and parts[1].lstrip("-").isdigit():
+            ev.append([parts[0], int(parts[1]), parts[2] if len(parts) > 2 else ""])
+        elif ev and ev[-1][0] == "S" and not MARKER.match(line.strip()) and line != "":
+            ev[-1][2] += "\n" + line
+        else:
+            ev.append(["T", None, line])
+    return [tuple(e) for e in ev]
 
 
 def count_lines(text, marker):
@@ -300,7 +338,7 @@ def judge_program(files, metas, c, r):
     if r is None or r.link_failed or r.timed_out or r.cpu_exceeded:
         out["inconc"].append(f"accepted program did not link / run: {getattr(r, 'link_err', '')[-200:]}")
         return out
-    ev = R.parse_log(r.out)
+    ev = parse_events(r.out)
     ended = any(t == "E" and i == END_ID for t, i, _ in ev)
     crashed = bool(r.sig) or r.rc != 0 or not ended
     stopped = False
@@ -422,12 +460,8 @@ def judge_memcheck(files, padfree, p):
         return viol, inconc, cnt
     cnt["memcheck_uninitialised_reports"] = len(MEM_UNINIT.findall(p.err))
     if MEM_UNINIT_WRITE.search(p.err):
-        if padfree:
-            viol.append({"key": "memcheck", "sig": "memcheck|uninitialised bytes written to the object file|padding-free results",
-                         "what": "uninitialised bytes reach write(2) of the object file although every comptime result of the program is a scalar or an array of scalars "
-                                 "(no padding that could explain them):\n" + p.err[:900], "witness": wit})
-        else:
-            cnt["memcheck_uninitialised_write_with_padded_results"] = 1
+        viol.append({"key": "memcheck", "sig": "memcheck|uninitialised bytes written to the object file|" + ("padding-free results" if padfree else "results with padding"),
+                     "what": "uninitialised bytes (of a captured comptime result) reach write(2) of the object file:\n" + p.err[:900], "witness": wit})
     return viol, inconc, cnt
 
 
@@ -496,8 +530,8 @@ def run(tier, seed):
     C.build_cli()
     C.build_rt()
     work = C.fresh_dir("C04")
-    nprog = 160 if tier == "quick" else 2500
-    nmem = 6 if tier == "quick" else 48
+    nprog = 160 if tier == "quick" else 1600
+    nmem = 6 if tier == "quick" else 32
     jobs = [("mem", work, seed, i) for i in range(nmem)]
     jobs += [("neg", work, seed, i, nt) for i, nt in enumerate(NEGATIVES)] + [("probe", work, seed, i, nt) for i, nt in enumerate(PROBES)]
     jobs += [("prog", work, seed, i) for i in range(nprog)]
@@ -543,9 +577,6 @@ def run(tier, seed):
     if len(viol) > len(uniq):
         notes.append(f"{len(viol) - len(uniq)} further violations share a signature with a reported one: " +
                      ", ".join(f"{k} x{n}" for k, n in sorted(seen.items()) if n > 1)[:600])
-    if cnt.get("memcheck_uninitialised_write_with_padded_results"):
-        notes.append("memcheck: uninitialised bytes reach write(2) of the object file for programs whose comptime results contain padding / tags "
-                     "(captured result buffers are allocated uninitialised); not judged by C04, the object file's bytes are not reproducible there")
     rep = {"evaluations": evals, "distinct_nontrivial": len(distinct), "violations": uniq, "samples": samples, "counters": cnt, "notes": notes,
            "exhaustive": False, "dropped_violations": len(viol) - len(uniq)}
     return C.finish("C04", tier, seed, t0, "exploration", rep, ASSUME, RULE, min_evals=500 if tier == "quick" else 5000, inconclusive=inconc)
